@@ -100,6 +100,7 @@ type c12pOp struct {
 	Unscoped bool    `json:"unscoped,omitempty"`
 	Vals     [][]int `json:"vals"` // per owner (delete: Vals[0] = flat list); k > 0 key, 0 = new record without key
 	Shape    int     `json:"shape"`
+	Loaded   bool    `json:"loaded,omitempty"` // argument records of existing targets carry the stored owner_id / owner_type (as loaded by First), not only the key
 }
 
 type c12pSeq struct {
@@ -180,9 +181,16 @@ func c12pReadRows(db *gorm.DB) ([]c12pRow, map[int]string) {
 	return out, names
 }
 
-func c12pBuildArgs(step, owner int, keys []int, shape int) (recs []*C12PToy, args []interface{}) {
+func c12pBuildArgs(step, owner int, keys []int, shape int, loaded map[int]c12pRow) (recs []*C12PToy, args []interface{}) {
 	mk := func(j, key int) *C12PToy {
-		return &C12PToy{ID: uint(key), Name: c12Label(step, owner, j, key)}
+		t := &C12PToy{ID: uint(key), Name: c12Label(step, owner, j, key)}
+		if x, ok := loaded[key]; ok && key > 0 {
+			t.OwnerType = x.Type
+			if x.OID != 0 {
+				t.OwnerID = c12pUintPtr(x.OID)
+			}
+		}
+		return t
 	}
 	switch shape {
 	case 1: // *[]T
@@ -298,10 +306,18 @@ func c12pExecOpt(s c12pSeq, keepSQL bool) []c12pObs {
 		rec.Reset()
 	}
 	var out []c12pObs
+	stored := map[int]c12pRow{}
+	for _, x := range s.Init {
+		stored[x.ID] = x
+	}
 	for step, op := range s.Ops {
 		rel := &c12pRels[op.Rel]
 		if !s.Persistent {
 			h = c12pNewHandles()
+		}
+		var loaded map[int]c12pRow
+		if op.Loaded {
+			loaded = stored
 		}
 		o := c12pObs{Per: map[string]int64{}, PerF: map[string][]int{}}
 		for _, ow := range op.Owners {
@@ -315,7 +331,7 @@ func c12pExecOpt(s c12pSeq, keepSQL bool) []c12pObs {
 				keys = op.Vals[0]
 			}
 			if len(keys) > 0 {
-				recs, args = c12pBuildArgs(step, 0, keys, op.Shape)
+				recs, args = c12pBuildArgs(step, 0, keys, op.Shape, loaded)
 			}
 		} else if op.Op != "clear" {
 			for i := range op.Owners {
@@ -327,7 +343,7 @@ func c12pExecOpt(s c12pSeq, keepSQL bool) []c12pObs {
 				if shape == 0 && len(keys) != 1 {
 					shape = 1
 				}
-				r, a := c12pBuildArgs(step, i, keys, shape)
+				r, a := c12pBuildArgs(step, i, keys, shape, loaded)
 				recs = append(recs, r...)
 				args = append(args, a...)
 			}
@@ -373,6 +389,10 @@ func c12pExecOpt(s c12pSeq, keepSQL bool) []c12pObs {
 		rec.mu.Unlock()
 		raw := db.Session(&gorm.Session{NewDB: true})
 		o.Rows, o.Names = c12pReadRows(raw)
+		stored = map[int]c12pRow{}
+		for _, x := range o.Rows {
+			stored[x.ID] = x
+		}
 		count := func(model interface{}, field string) (n int64, e string) {
 			defer func() {
 				if p := recover(); p != nil {
@@ -775,7 +795,7 @@ func c12pGenSeq(rng *rand.Rand, maxLen int) c12pSeq {
 		}
 	}
 	for i := 0; i < n; i++ {
-		op := c12pOp{Rel: focusRel, Owners: focusOwners, OwnerPtr: focusPtr, Shape: rng.Intn(3)}
+		op := c12pOp{Rel: focusRel, Owners: focusOwners, OwnerPtr: focusPtr, Shape: rng.Intn(3), Loaded: rng.Intn(2) == 0}
 		if !s.Persistent {
 			op.Rel = rng.Intn(len(c12pRels))
 			op.Owners = []int{1 + rng.Intn(2)}
@@ -1236,9 +1256,9 @@ func c12pColumns(r *Result) {
 
 func init() {
 	register("C12", func(r *Result, rng *rand.Rand, tier string) {
-		nE, nT := 1100, 900
+		nE, nT := 1000, 800
 		if tier == "thorough" {
-			nE, nT = 25000, 20000
+			nE, nT = 15000, 12000
 		} else if tier == "search" {
 			nE, nT = 3000, 0
 		}
